@@ -281,3 +281,1034 @@ Definition p_checks (c : pcase) : list bool :=
     Z.eqb (p_warn c) (-1) || Bool.eqb (p_model_warns c) (Z.eqb (p_warn c) 1) ].
 Definition check_p (c : pcase) : bool := forallb (fun b => b) (p_checks c).
 """
+
+U_OBS = {
+    "UGrid": ["nd_okb", "nd_flatten", "shape_size", "ndindex", "nd_get/ravel", "nd_get o ndindex"],
+    "UReshapeZ": ["np_reshape"], "UReshapeP": ["np_reshape"],
+    "UTake": ["take_idx", "take_cols"],
+    "UWeights": ["default_weights_z"],
+    "UArr": ["a_rows", "a_T", "a_ascontiguous", "a_asfortran", "a_ascontiguous o a_T", "a_of_rows", "a_get"],
+    "UShape": ["lookup_shape_ok", "tfm_result"],
+    "UBcast": ["bcast_weights (outcome)", "bcast_weights (weights applied)"],
+    "UComplete": ["frame_complete", "contact_tfm_warns", "tfm_for_view_warns"],
+    "URect": ["points_in_rectbox", "in_rectbox"],
+    "UMaxArea": ["maximum_intensity_in_area", "mask_select", "nanmax"],
+    "UMaxBox": ["maximum_intensity_in_rectbox_nd", "maximum_intensity_in_rectbox"],
+}
+P_OBS = ["outcome (TfmResult / exception / shape drift)", "image", "warning"]
+P_KIND = {0: "contact_tfm_nd", 1: "tfm_for_view_nd", 2: "tfm_for_view_mem", 3: "contact_tfm_x"}
+P_CORR = {0: "Model.TfmGlue.contact_tfm_nd vs arim.im.tfm.contact_tfm(frame, grid, velocity, amplitudes, timetrace_weights, ...)",
+          1: "Model.TfmGlue.tfm_for_view_nd vs arim.im.tfm.tfm_for_view(frame, grid, view, amplitudes, ...)",
+          2: "Model.TfmGlue.tfm_for_view_mem vs arim.im.tfm.tfm_for_view(...) with rays.times in C / Fortran order",
+          3: "Model.TfmGlue.contact_tfm_x vs arim.im.tfm.contact_tfm(..., timetrace_weights=<explicit>)"}
+INTERP = {0: "nearest", 1: "linear", 2: ("lanczos", 3)}
+
+
+# ---------------------------------------------------------------------------------------------------------------
+# Coq literals
+# ---------------------------------------------------------------------------------------------------------------
+def czpt(p):
+    return "(" + ", ".join(cZ(int(v)) for v in p) + ")"
+
+
+def cfpt(p):
+    return "(" + ", ".join(cfloat(float(v)) for v in p) + ")"
+
+
+def ccplx(v):
+    v = complex(v)
+    return cpair(cfloat(v.real), cfloat(v.imag))
+
+
+def ctree(a, depth, leaf):
+    """tree literal of the first `depth` axes of the array `a`"""
+    if depth == 0:
+        return "Leaf " + leaf(a)
+    return "Node [" + "; ".join(ctree(a[i], depth - 1, leaf) for i in range(a.shape[0])) + "]"
+
+
+def carr(a, conv):
+    """(m, p, Fortran-ordered?, buffer) of a 2-d array that is C- or Fortran-contiguous"""
+    a = np.asarray(a)
+    assert a.ndim == 2 and (a.flags.c_contiguous or a.flags.f_contiguous), (a.shape, a.strides)
+    forder = bool(a.flags.f_contiguous and not a.flags.c_contiguous)
+    return f"({cZ(a.shape[0])}, {cZ(a.shape[1])}, {cbool(forder)}, {clist(list(a.ravel(order='K')), conv)})"
+
+
+def ctab(a, conv):
+    return clist([clist(list(row), conv) for row in a])
+
+
+def cbox(b):
+    return clist([copt(None if v is None else float(v), cfloat) for v in b])
+
+
+def ints(a):
+    """exact integers of an integer-valued array"""
+    a = np.asarray(a)
+    r = np.rint(a).astype(np.int64)
+    assert np.array_equal(r, a), a
+    return r
+
+
+EMPTY_ARR = "(0%Z, 0%Z, false, [])"
+
+
+class Case:
+    __slots__ = ("tag", "lit", "family", "info", "corr", "exprs")
+
+    def __init__(self, tag, lit, family, info, corr, exprs=()):
+        self.tag, self.lit, self.family, self.info, self.corr, self.exprs = tag, lit, family, info, corr, list(exprs)
+
+
+def _exc(e):
+    return f"{type(e).__name__}: {str(e)[:160]}"
+
+
+# ---------------------------------------------------------------------------------------------------------------
+# the "noncomplete frame" warnings of arim.im.tfm, recorded from the real logger
+# ---------------------------------------------------------------------------------------------------------------
+class _Rec(logging.Handler):
+    def __init__(self):
+        super().__init__(level=logging.WARNING)
+        self.msgs = []
+
+    def emit(self, record):
+        self.msgs.append(record.getMessage())
+
+
+@contextmanager
+def warning_recorder():
+    lg = logging.getLogger("arim.im.tfm")
+    old_level, old_prop = lg.level, lg.propagate
+    h = _Rec()
+    lg.addHandler(h)
+    lg.setLevel(logging.WARNING)
+    lg.propagate = False
+    try:
+        yield h
+    finally:
+        lg.removeHandler(h)
+        lg.setLevel(old_level)
+        lg.propagate = old_prop
+
+
+def warned(rec, start):
+    return any("noncomplete frame" in m for m in rec.msgs[start:])
+
+
+# ---------------------------------------------------------------------------------------------------------------
+# shapes and memory layouts
+# ---------------------------------------------------------------------------------------------------------------
+def rand_shape(rng, maxsize=24, zero=0.06):
+    while True:
+        d = int(rng.choice([0, 1, 1, 2, 2, 3, 3, 4]))
+        s = tuple(int(0 if rng.random() < zero else rng.choice([1, 1, 2, 2, 3, 4, 5])) for _ in range(d))
+        if int(np.prod(s, dtype=np.int64)) <= maxsize:
+            return s
+
+
+def shape_with(rng, total):
+    """a shape with `total` points (any number of axes of length 1)"""
+    if total == 1 and rng.random() < 0.25:
+        return ()
+    dims, rest = [], total
+    while rest > 1 and rng.random() < 0.7:
+        divs = [k for k in range(2, rest + 1) if rest % k == 0]
+        k = int(rng.choice(divs))
+        dims.append(k)
+        rest //= k
+    dims.append(rest)
+    while len(dims) < 4 and rng.random() < 0.3:
+        dims.insert(int(rng.integers(0, len(dims) + 1)), 1)
+    if total == 0:
+        dims = [int(v) for v in rng.choice([0, 1, 2, 3], size=int(rng.integers(1, 4)))]
+        dims[int(rng.integers(0, len(dims)))] = 0
+    p = rng.permutation(len(dims))
+    return tuple(int(dims[i]) for i in p)
+
+
+LAYOUTS = ["C", "C", "F", "strided", "reversed", "moved"]
+
+
+def with_layout(rng, arr, kind=None):
+    """the same logical array (last axis = x, y, z) stored differently"""
+    kind = kind or str(rng.choice(LAYOUTS))
+    arr = np.ascontiguousarray(arr)
+    if kind == "F":
+        out = np.asfortranarray(arr)
+    elif kind == "strided":
+        big = np.zeros((arr.shape[0] * 2,) + arr.shape[1:], dtype=arr.dtype)
+        big[::2] = arr
+        out = big[::2]
+    elif kind == "reversed":
+        out = np.ascontiguousarray(arr[::-1])[::-1]
+    elif kind == "moved":       # coordinates stored as three planes x, y, z (np.stack(..., axis=0) moved to the back)
+        out = np.moveaxis(np.ascontiguousarray(np.moveaxis(arr, -1, 0)), 0, -1)
+    else:
+        out = arr
+    assert out.shape == arr.shape and np.array_equal(out, arr, equal_nan=True)
+    return out, kind
+
+
+# ---------------------------------------------------------------------------------------------------------------
+# unit cases, part 1: N-d grids, reshape, take, default weights
+# ---------------------------------------------------------------------------------------------------------------
+def u_grid(arim, rng, coords=None, layout=None, probes=None, family="random"):
+    g = arim.geometry
+    if coords is None:
+        s = rand_shape(rng)
+        coords = rng.integers(-9, 10, size=s + (3,)).astype(rng.choice([np.float64, np.float64, np.float32, np.int64]))
+    coords, layout = with_layout(rng, np.asarray(coords), layout)
+    grid = g.Points(coords, "Grid")
+    s = tuple(int(v) for v in grid.shape)
+    d = len(s)
+    flat = ints(grid.to_1d_points().coords)
+    assert flat.ndim == 2
+    ndi = [[int(v) for v in idx] for idx, _ in grid.enumerate()]
+    enum_pts = [ints(p).tolist() for _, p in grid.enumerate()]
+    pr = [] if probes is None else [list(p) for p in probes]
+    if probes is None:
+        for _ in range(6):
+            k = d if rng.random() < 0.8 else int(rng.integers(0, d + 2))
+            pr.append([int(rng.integers(0, (s[a] if a < d else 2) + 2)) if rng.random() < 0.3
+                       else int(rng.integers(0, max(s[a] if a < d else 2, 1))) for a in range(k)])
+    plits, pinfo = [], []
+    for idx in pr:
+        spelled = tuple(np.int64(v) if rng.random() < 0.3 else int(v) for v in idx)
+        full = len(idx) == d
+        ev = None
+        if full:
+            try:
+                v = np.asarray(grid[spelled])
+                ev = ints(v).tolist() if v.shape == (3,) else "not a point"
+            except IndexError:
+                ev = None
+        try:
+            er = int(np.ravel_multi_index(spelled, s))
+        except ValueError:
+            er = None
+        if ev == "not a point":
+            full, ev = False, None
+        plits.append(f"({clist(idx, cZ)}, {cbool(full)}, {copt(ev, czpt)}, {copt(er, cZ)})")
+        pinfo.append(dict(index=idx, grid_item=ev if full else "not compared", ravel_multi_index=er))
+    # the points yielded by Points.enumerate(), as further probes: (idx, point) against nd_get / ravel
+    for k, (idx, pt) in enumerate(zip(ndi, enum_pts)):
+        plits.append(f"({clist(idx, cZ)}, true, {copt(pt, czpt)}, {copt(k, cZ)})")
+    gt = ctree(ints(grid.coords), d, czpt)
+    lit = (f"UGrid {clist(s, cZ)} ({gt}) {clist(flat.tolist(), czpt)} {cZ(grid.size)} {cZ(grid.numpoints)} "
+           f"{clist([clist(i, cZ) for i in ndi])} {clist(plits)}")
+    info = dict(shape=list(s), coords=ints(grid.coords).tolist(), memory_layout=layout, dtype=str(coords.dtype),
+                arim=dict(to_1d_points=flat.tolist(), size=int(grid.size), numpoints=int(grid.numpoints),
+                          enumerate_indices=ndi, enumerate_points=enum_pts, probes=pinfo))
+    sn = clist(s, cZ)
+    exprs = [f"option_map (nd_flatten (length (nats {sn}))) (to_nd (length (nats {sn})) ({gt}))",
+             f"shape_size (nats {sn})", f"ndindex (nats {sn})"] + \
+            [f"(option_map (fun a => nd_get (length (nats {sn})) a (nats {clist(i, cZ)})) (to_nd (length (nats {sn})) ({gt})), "
+             f"ravel (nats {sn}) (nats {clist(i, cZ)}))" for i in pr[:4]]
+    return Case("UGrid", lit, f"UGrid:{family}:ndim={d}:{layout}" + (":empty" if grid.size == 0 else ""), info,
+                "Model.TfmGlue.nd_flatten / shape_size / ndindex / nd_get / ravel vs Points.to_1d_points().coords / .size / "
+                ".numpoints / Points.enumerate() / grid[idx] / np.ravel_multi_index", exprs)
+
+
+def u_reshape(arim, rng, points, flat=None, s=None, family="random"):
+    g = arim.geometry
+    if s is None:
+        s = rand_shape(rng)
+        L = int(np.prod(s, dtype=np.int64))
+        r = rng.random()
+        if r < 0.3:
+            L = max(0, L + int(rng.choice([-2, -1, 1, 2, 3])))
+        elif r < 0.35:
+            L = int(rng.integers(0, 10))
+    else:
+        L = len(flat)
+    if flat is None:
+        flat = rng.integers(-20, 21, size=(L, 3) if points else (L,))
+    flat = np.asarray(flat)
+    tag = "UReshapeP" if points else "UReshapeZ"
+    conv = czpt if points else cZ
+    layout = "C"
+    try:
+        if points:
+            src, layout = with_layout(rng, flat.astype(float).reshape(L, 3))
+            out = np.asarray(g.Points(src).reshape(tuple(s) if rng.random() < 0.8 or len(s) != 1 else int(s[0])).coords)
+            ok = out.shape == tuple(s) + (3,)
+        else:
+            src = flat.astype(float)
+            if L and rng.random() < 0.3:
+                big = np.zeros(2 * L)
+                big[::2] = src
+                src, layout = big[::2], "strided"
+            out = src.reshape(tuple(s))
+            ok = out.shape == tuple(s)
+        kind, exp, what = (0, ctree(ints(out), len(s), conv), ints(out).tolist()) if ok else (9, "Node []", f"shape {out.shape}")
+    except ValueError as e:
+        kind, exp, what = 1, "Node []", _exc(e)
+    fl = clist([conv(v) for v in flat.tolist()])
+    lit = f"{tag} {clist(s, cZ)} {fl} {cZ(kind)} ({exp})"
+    dflt = "(0, 0, 0)%Z" if points else "0%Z"
+    return Case(tag, lit, f"{tag}:{family}:ndim={len(s)}:{'value' if kind == 0 else 'ValueError'}",
+                dict(shape=list(s), flat=flat.tolist(), memory_layout=layout, arim=what),
+                "Model.TfmGlue.np_reshape vs " + ("arim.geometry.Points(flat).reshape(s).coords" if points else "numpy.ndarray.reshape(s) (res.reshape(grid.shape))"),
+                [f"option_map (of_nd (length (nats {clist(s, cZ)}))) (np_reshape {dflt} (nats {clist(s, cZ)}) {fl})"])
+
+
+def u_take(arim, rng):
+    L = int(rng.integers(0, 8))
+    l = rng.integers(-20, 21, size=L)
+    k = int(rng.integers(0, 6))
+    hi = L + 2 if rng.random() < 0.3 else max(L, 1)
+    idx = [int(v) for v in rng.integers(0, hi, size=k)]
+    nrows = int(rng.integers(1, 4))
+    t = rng.integers(-20, 21, size=(nrows, L))
+    spelled = np.asarray(idx, dtype=rng.choice([np.intp, np.int32, np.uint8])) if rng.random() < 0.5 else list(idx)
+    if isinstance(spelled, list) and not spelled:
+        spelled = np.zeros(0, dtype=np.intp)
+    pts = arim.geometry.Points(np.stack([l, l, l], axis=-1).astype(float).reshape(L, 3))
+    try:
+        exp = [int(v) for v in l.astype(float)[spelled]]
+        via_points = ints(pts.coords[spelled])[:, 0].tolist()
+        if via_points != exp:
+            exp = via_points
+    except IndexError:
+        exp = None
+    try:
+        expc = ints(np.asfortranarray(t.astype(float))[:, spelled]).tolist()
+    except IndexError:
+        expc = None
+    lit = (f"UTake {clist(idx, cZ)} {clist(l.tolist(), cZ)} {copt(exp, lambda x: clist(x, cZ))} {ctab(t.tolist(), cZ)} "
+           f"{copt(expc, lambda x: ctab(x, cZ))}")
+    return Case("UTake", lit, "UTake:" + ("IndexError" if exp is None else "value") + (":repeated" if len(set(idx)) < len(idx) else ""),
+                dict(l=l.tolist(), t=t.tolist(), idx=idx, arim=dict(take=exp, columns=expc)),
+                "Model.TfmGlue.take_idx / take_cols vs l[idx] (Points.coords[idx]) / t[:, idx]",
+                [f"take_idx (nats {clist(idx, cZ)}) {clist(l.tolist(), cZ)}", f"take_cols (nats {clist(idx, cZ)}) {ctab(t.tolist(), cZ)}"])
+
+
+INT_DTYPES = [np.int8, np.uint8, np.int16, np.uint16, np.int32, np.uint32, np.int64, np.uint64]
+
+
+def spell_ints(rng, vals):
+    """a list of Python ints, or a numpy array of a dtype that holds the values"""
+    vals = [int(v) for v in vals]
+    if rng.random() < 0.4:
+        return list(vals), "list"
+    fits = [d for d in INT_DTYPES if all(np.iinfo(d).min <= v <= np.iinfo(d).max for v in vals)]
+    d = fits[int(rng.integers(0, len(fits)))]
+    return np.array(vals, dtype=d), np.dtype(d).name
+
+
+def u_weights(arim, rng, tx=None, rx=None, family="random"):
+    if tx is None:
+        n = int(rng.integers(1, 9))
+        lo, hi = ((-3, 4) if rng.random() < 0.3 else (0, int(rng.integers(1, 6))))
+        tx = rng.integers(lo, hi + 1, size=n)
+        rx = rng.integers(lo, hi + 1, size=n)
+        r = rng.random()
+        if r < 0.25:      # reciprocal closure of a random set: all weights 1
+            tx, rx = np.concatenate([tx, rx]), np.concatenate([rx, tx])
+        elif r < 0.4:     # length mismatch (one side may be empty)
+            rx = rx[:int(rng.integers(0, n))] if rng.random() < 0.5 else np.concatenate([rx, rx[:1]])
+        family = "random" + (":negative values" if lo < 0 else "")
+    assert len(tx) or len(rx), "two empty lists: the library raises from np.nditer, the model answers Some [] (restriction)"
+    stx, dtx = spell_ints(rng, tx)
+    srx, drx = spell_ints(rng, rx)
+    try:
+        w = arim.ut.default_timetrace_weights(stx, srx)
+        exp = ints(w).tolist()
+        if np.asarray(w).dtype.kind != "f" or np.asarray(w).shape != (len(tx),):
+            exp = None
+            family += ":unexpected result"
+    except ValueError as e:
+        exp = None
+        family += ":ValueError"
+    txl, rxl = clist([int(v) for v in tx], cZ), clist([int(v) for v in rx], cZ)
+    return Case("UWeights", f"UWeights {txl} {rxl} {copt(exp, lambda x: clist(x, cZ))}", "UWeights:" + family,
+                dict(tx=[int(v) for v in tx], rx=[int(v) for v in rx], tx_spelling=dtx, rx_spelling=drx, arim=exp),
+                "Model.TfmGlue.default_weights_z vs arim.ut.default_timetrace_weights(tx, rx)",
+                [f"default_weights_z {txl} {rxl}"])
+
+
+# ---------------------------------------------------------------------------------------------------------------
+# unit cases, part 2: memory order, shape assertions, weights broadcasting, complete frames
+# ---------------------------------------------------------------------------------------------------------------
+def _fermat_path(arim, n, m):
+    g = arim.geometry
+    p1 = g.Points(np.stack([np.arange(n) * 1.0, np.zeros(n), np.zeros(n)], axis=1), "A")
+    p2 = g.Points(np.stack([np.arange(m) * 1.0, np.zeros(m), np.ones(m)], axis=1), "B")
+    return arim.ray.FermatPath((p1, 1.0, p2))
+
+
+def u_arr(arim, rng, a=None, family="random"):
+    tfm = arim.im.tfm
+    if a is None:
+        m, p = (int(v) for v in rng.choice([0, 1, 1, 2, 2, 3, 4], size=2))
+        a = rng.integers(-30, 31, size=(m, p)).astype(float)
+        if rng.random() < 0.5:
+            a = np.asfortranarray(a)
+    a = np.asarray(a, dtype=float)
+    m, p = a.shape
+    z = lambda v: cZ(int(v))    # noqa: E731
+    rows = ints(a).tolist()
+    how_f = "np.asfortranarray"
+    if m >= 1 and p >= 1:
+        rays = arim.ray.Rays(a, np.zeros((0, m, p), dtype=np.intp, order="F" if a.flags.f_contiguous and not a.flags.c_contiguous else "C"),
+                             _fermat_path(arim, m, p))
+        aF = rays.to_fortran_order().times
+        how_f = "Rays.to_fortran_order().times"
+    else:
+        aF = np.asfortranarray(a)
+    aTC = tfm.FocalLaw(a.T, a.T).lookup_times_tx
+    aR = np.array(rows, dtype=float) if m else np.zeros((0, p))
+    if aR.ndim != 2:
+        aR = aR.reshape(m, p)
+    gets = [(i, j, int(a[i, j])) for i in range(m) for j in range(p)]
+    lit = (f"UArr {carr(a, z)} {ctab(rows, cZ)} {carr(a.T, z)} {carr(np.ascontiguousarray(a), z)} {carr(aF, z)} {carr(aTC, z)} "
+           f"{carr(aR, z)} {clist([f'({cZ(i)}, {cZ(j)}, {cZ(v)})' for i, j, v in gets])}")
+    order = "F" if (a.flags.f_contiguous and not a.flags.c_contiguous) else ("C" if not a.flags.f_contiguous else "both")
+    x = f"(arr_of {carr(a, z)})"
+    return Case("UArr", lit, f"UArr:{family}:{order}:{'empty' if 0 in (m, p) else 'vector' if 1 in (m, p) else 'matrix'}",
+                dict(shape=[m, p], order=order, buffer=ints(a.ravel(order="K")).tolist(), fortran_by=how_f,
+                     arim=dict(tolist=rows, T_buffer=ints(a.T.ravel(order="K")).tolist(),
+                               fortran_buffer=ints(np.asarray(aF).ravel(order="K")).tolist(), fortran_flags=[bool(aF.flags.c_contiguous), bool(aF.flags.f_contiguous)],
+                               focal_law_lookup_buffer=ints(np.asarray(aTC).ravel(order="K")).tolist(),
+                               focal_law_lookup_flags=[bool(aTC.flags.c_contiguous), bool(aTC.flags.f_contiguous)], focal_law_lookup_shape=list(aTC.shape))),
+                "Model.TfmGlue.a_rows / a_T / a_ascontiguous / a_asfortran / a_of_rows / a_get vs a.tolist() / a.T / np.ascontiguousarray / "
+                "Rays.to_fortran_order().times / FocalLaw(a.T, a.T).lookup_times_tx / np.array(rows) / a[i, j]",
+                [f"a_rows 0%Z {x}", f"a_T {x}", f"a_ascontiguous 0%Z {x}", f"a_asfortran 0%Z {x}", f"a_ascontiguous 0%Z (a_T {x})"])
+
+
+def u_shape(arim, rng, rs=None, gs=None, family="random"):
+    tfm, g = arim.im.tfm, arim.geometry
+    r, c = int(rng.integers(1, 4)), int(rng.integers(0, 4))
+    n, e = (r, c) if rng.random() < 0.5 else (int(rng.integers(0, 4)), int(rng.integers(0, 4)))
+    lt = rng.integers(0, 9, size=(r, c))
+    exp = lt.astype(float).shape == (n, e)
+    if rs is None:
+        rs = rand_shape(rng, maxsize=30, zero=0.1)
+        q = rng.random()
+        gs = rs if q < 0.4 else (rs[::-1] if q < 0.5 else (rs + (1,) if q < 0.6 else (rs[:-1] if q < 0.7 else rand_shape(rng, maxsize=30, zero=0.1))))
+    try:
+        obj = tfm.TfmResult(np.zeros(tuple(rs)), g.Points(np.zeros(tuple(gs) + (3,))))
+        exp2 = obj.res.shape == tuple(rs)
+    except AssertionError:
+        exp2 = False
+    lit = f"UShape {ctab(lt.tolist(), cZ)} {cZ(n)} {cZ(e)} {cbool(exp)} {clist(rs, cZ)} {clist(gs, cZ)} {cbool(exp2)}"
+    return Case("UShape", lit, f"UShape:{family}:{'same' if exp2 else 'different'} shapes",
+                dict(lookup_times_shape=[r, c], numpoints=n, numelements=e, res_shape=list(rs), grid_shape=list(gs),
+                     arim=dict(shape_equal=bool(exp), TfmResult_accepts=bool(exp2))),
+                "Model.TfmGlue.lookup_shape_ok / tfm_result vs lookup_times.shape == (n, e) / TfmResult.__init__ (AssertionError)",
+                [f"tfm_result (nats {clist(rs, cZ)}) (nats {clist(gs, cZ)})"])
+
+
+def broadcast_rows(n, ns, wlen):
+    """number of rows numpy gives to  (n, ns) * (wlen, 1);  None = ValueError (computed without any arim code)"""
+    try:
+        return int(np.broadcast_shapes((n, ns), (wlen, 1))[0])
+    except ValueError:
+        return None
+
+
+def u_bcast(arim, rng, w=None, n=None, family="random"):
+    tfm = arim.im.tfm
+    if w is None:
+        n = int(rng.choice([1, 1, 2, 3, 4, 5]))
+        L = n if rng.random() < 0.4 else int(rng.integers(0, 6))
+        w = [float(v) for v in rng.choice([1.0, 2.0, 0.5, 3.0, 0.25, -1.0, 0.0], size=L)]
+    ns = 2
+    rows = broadcast_rows(n, ns, len(w))
+    scalar = len(w) == 1 and rng.random() < 0.5
+    if rows is not None and rows != n:
+        kind, exp, what = 2, [], f"numpy would broadcast to {rows} rows for {n} timetraces: the library is not run"
+    else:
+        spelled = (w[0] if rng.random() < 0.5 else np.float64(w[0])) if scalar else list(w)
+        fl = tfm.FocalLaw(np.zeros((1, 1)), np.zeros((1, 1)), None, spelled)
+        try:
+            out = fl.weigh_timetraces(np.ones((n, ns)))
+            if out.shape == (n, ns) and np.array_equal(out[:, 0], out[:, 1]):
+                kind, exp, what = 0, [float(v) for v in out[:, 0]], [float(v) for v in out[:, 0]]
+            else:
+                kind, exp, what = 9, [], f"result of shape {out.shape}"
+        except ValueError as e:
+            kind, exp, what = 1, [], _exc(e)
+    lit = f"UBcast {clist(w, cfloat)} {cZ(n)} {cZ(kind)} {clist(exp, cfloat)}"
+    return Case("UBcast", lit, f"UBcast:{family}:{['GOk', 'GRaise', 'GShapeDrift'][kind] if kind < 3 else 'other'}"
+                + (":one weight" if len(w) == 1 else ":len(w)=n" if len(w) == n else ""),
+                dict(weights=w, numtimetraces=n, given_as="float" if scalar else "list", arim=what),
+                "Model.TfmGlue.bcast_weights vs FocalLaw(.., timetrace_weights=w).weigh_timetraces(ones((n, ns)))[:, 0] "
+                "(GShapeDrift: np.broadcast_shapes only)",
+                [f"bcast_weights NumF {clist(w, cfloat)} (Z.to_nat {cZ(n)})"])
+
+
+def _namespace_view(ttx, trx):
+    return SimpleNamespace(tx_path=SimpleNamespace(rays=SimpleNamespace(times=ttx)),
+                           rx_path=SimpleNamespace(rays=SimpleNamespace(times=trx)))
+
+
+def _probe(arim, coords):
+    return arim.Probe(arim.geometry.Points(np.ascontiguousarray(coords, dtype=float), "Probe"), 1e6)
+
+
+def gen_pairs(rng, ntx, nrx=None, pow2=False):
+    """distinct (tx, rx) pairs: FMC, HMC (either orientation), random subsets, possibly permuted"""
+    square = nrx is None or nrx == ntx
+    nrx = ntx if nrx is None else nrx
+    allp = [(i, j) for i in range(ntx) for j in range(nrx)]
+    mode = str(rng.choice(["fmc", "hmc", "hmcrev", "subset", "subset", "halfmixed"] if square else ["fmc", "subset"]))
+    if mode == "fmc":
+        pairs = allp
+    elif mode == "hmc":
+        pairs = [(i, j) for i, j in allp if i <= j]
+    elif mode == "hmcrev":
+        pairs = [(j, i) for i, j in allp if i <= j]
+    elif mode == "halfmixed":
+        pairs = [((i, j) if rng.random() < 0.5 else (j, i)) for i, j in allp if i <= j]
+    else:
+        k = int(rng.integers(1, len(allp) + 1))
+        pairs = [allp[i] for i in rng.choice(len(allp), size=k, replace=False)]
+    if pow2 and len(pairs) & (len(pairs) - 1):
+        k = 1 << (len(pairs).bit_length() - 1)
+        pairs = [pairs[i] for i in sorted(rng.choice(len(pairs), size=k, replace=False))]
+        mode += ":cut to 2^k"
+    if rng.random() < 0.4:
+        pairs = [pairs[i] for i in rng.permutation(len(pairs))]
+        mode += ":permuted"
+    fits = [d for d in INT_DTYPES if max(ntx, nrx) - 1 <= np.iinfo(d).max]
+    dt = fits[int(rng.integers(0, len(fits)))] if rng.random() < 0.5 else np.int64
+    tx = np.ascontiguousarray(np.array([p[0] for p in pairs], dtype=dt))
+    rx = np.ascontiguousarray(np.array([p[1] for p in pairs], dtype=dt))
+    return tx, rx, mode
+
+
+def u_complete(arim, rng, rec, pairs=None, family="random"):
+    tfm, g = arim.im.tfm, arim.geometry
+    if pairs is None:
+        nel = int(rng.integers(1, 5))
+        tx, rx, family = gen_pairs(rng, nel)
+        if rng.random() < 0.3:      # reciprocal closure: complete
+            ps = list(dict.fromkeys(list(zip(tx.tolist(), rx.tolist())) + list(zip(rx.tolist(), tx.tolist()))))
+            tx, rx = np.array([p[0] for p in ps]), np.array([p[1] for p in ps])
+            family += ":closed"
+    else:
+        tx, rx = np.array([p[0] for p in pairs]), np.array([p[1] for p in pairs])
+    nel = int(max(tx.max(), rx.max())) + 1
+    N = len(tx)
+    frame = arim.Frame(np.zeros((N, 2)), arim.Time(0.0, 1.0, 2), tx, rx,
+                       _probe(arim, np.stack([np.arange(nel) * 1.0, np.zeros(nel), np.zeros(nel)], axis=1)), None)
+    complete = bool(frame.is_complete_assuming_reciprocity())
+    use_amps = bool(rng.integers(0, 2))
+    grid = g.Points(np.array([[0.0, 0.0, 1.0]]))
+    amps = tfm.TxRxAmplitudes(np.ones((1, nel)), np.ones((1, nel))) if use_amps else None
+    k = len(rec.msgs)
+    tfm.contact_tfm(frame, grid, 1.0, amplitudes=amps)
+    wc = warned(rec, k)
+    k = len(rec.msgs)
+    tfm.tfm_for_view(frame, grid, _namespace_view(np.ones((nel, 1)), np.ones((nel, 1))))
+    wv = warned(rec, k)
+    pl = clist([f"({cZ(a)}, {cZ(b)})" for a, b in zip(tx.tolist(), rx.tolist())])
+    lit = f"UComplete {pl} {cbool(use_amps)} {cbool(complete)} {cbool(wc)} {cbool(wv)}"
+    return Case("UComplete", lit, f"UComplete:{family.split(':')[0]}:{'complete' if complete else 'incomplete'}:{'amplitudes' if use_amps else 'no amplitudes'}",
+                dict(tx=tx.tolist(), rx=rx.tolist(), amplitudes=use_amps,
+                     arim=dict(is_complete_assuming_reciprocity=complete, contact_tfm_warned=wc, tfm_for_view_warned=wv)),
+                "Model.TfmGlue.frame_complete / contact_tfm_warns / tfm_for_view_warns vs Frame.is_complete_assuming_reciprocity() / "
+                "logger.warning records of contact_tfm / tfm_for_view",
+                [f"frame_complete (map (fun p => mkScan (D:=Z) (Z.to_nat (fst p)) (Z.to_nat (snd p)) []) {pl})"])
+
+
+# ---------------------------------------------------------------------------------------------------------------
+# unit cases, part 3: rectangular boxes and maximum intensity
+# ---------------------------------------------------------------------------------------------------------------
+BOX_NAMES = ["xmin", "xmax", "ymin", "ymax", "zmin", "zmax"]
+
+
+def rand_box(rng, coords, p_none=0.5):
+    """bounds drawn among the coordinates present (closed bounds are hit) or nearby; each None with probability p_none"""
+    b = []
+    flat = np.asarray(coords, dtype=float).reshape(-1, 3)
+    for k in range(6):
+        if rng.random() < p_none:
+            b.append(None)
+            continue
+        axis = k // 2
+        if len(flat) and rng.random() < 0.7:
+            v = float(flat[int(rng.integers(0, len(flat))), axis])
+            if v != v:
+                v = 0.0
+        else:
+            v = float(rng.integers(-8, 9)) / 2
+        if rng.random() < 0.15:
+            v += float(rng.choice([-0.25, 0.25]))
+        b.append(v)
+    if rng.random() < 0.03:
+        b[int(rng.integers(0, 6))] = float("nan")
+    return b
+
+
+def spell_box(rng, b):
+    out = {}
+    for name, v in zip(BOX_NAMES, b):
+        if v is None:
+            if rng.random() < 0.5:
+                out[name] = None
+        elif float(v).is_integer() and rng.random() < 0.3:
+            out[name] = int(v)
+        else:
+            out[name] = np.float64(v) if rng.random() < 0.3 else float(v)
+    return out
+
+
+def rand_grid_f(rng, s=None, nan=0.04):
+    s = rand_shape(rng, maxsize=18) if s is None else s
+    c = rng.integers(-8, 9, size=tuple(s) + (3,)).astype(float) / 2
+    if c.size and rng.random() < nan:
+        c.reshape(-1)[int(rng.integers(0, c.size))] = float("nan")
+    return c
+
+
+def u_rect(arim, rng, coords=None, b=None, family="random"):
+    g = arim.geometry
+    if coords is None:
+        coords = rand_grid_f(rng)
+        b = rand_box(rng, coords)
+    coords, layout = with_layout(rng, np.asarray(coords, dtype=float))
+    grid = g.Points(coords)
+    d = grid.ndim
+    kw = spell_box(rng, b)
+    if rng.random() < 0.5:
+        mask = grid.points_in_rectbox(**kw)
+        how = "Points.points_in_rectbox(**kw)"
+    elif rng.random() < 0.5:
+        mask = grid.points_in_rectbox(*b)
+        how = "Points.points_in_rectbox(xmin, xmax, ymin, ymax, zmin, zmax)"
+    else:
+        mask = g.points_in_rectbox(grid.x, grid.y, grid.z, **kw)
+        how = "geometry.points_in_rectbox(x, y, z, **kw)"
+    mask = np.asarray(mask)
+    ok = mask.dtype == bool and mask.shape == grid.shape
+    mt = ctree(mask, d, lambda v: cbool(bool(v))) if ok else "Leaf true"
+    gt = ctree(np.asarray(grid.coords), d, cfpt)
+    lit = f"URect {cbox(b)} {clist(grid.shape, cZ)} ({gt}) ({mt})"
+    return Case("URect", lit, f"URect:{family}:ndim={d}:bounds={sum(v is not None for v in b)}",
+                dict(box=dict(zip(BOX_NAMES, b)), spelled=repr(kw), call=how, shape=list(grid.shape), coords=np.asarray(grid.coords).tolist(),
+                     memory_layout=layout, arim=mask.tolist() if ok else f"dtype {mask.dtype}, shape {mask.shape}"),
+                "Model.TfmGlue.points_in_rectbox / in_rectbox vs Points.points_in_rectbox / geometry.points_in_rectbox",
+                [f"option_map (fun a => of_nd (length (nats {clist(grid.shape, cZ)})) (points_in_rectbox NumF (box_of {cbox(b)}) _ a)) "
+                 f"(to_nd (length (nats {clist(grid.shape, cZ)})) ({gt}))"])
+
+
+PYTH = [(3, 4), (4, 3), (5, 12), (12, 5), (8, 15), (6, 8), (7, 24), (0, 5), (5, 0), (0, 0), (9, 12), (20, 21)]
+
+
+def rand_res(rng, shape, cplx, nan=0.15):
+    n = int(np.prod(shape, dtype=np.int64))
+    if cplx:
+        v = np.zeros(n, dtype=complex)
+        for k in range(n):
+            a, b = PYTH[int(rng.integers(0, len(PYTH)))]
+            sc = float(rng.choice([0.25, 0.5, 1.0, 2.0]))
+            v[k] = complex(a * sc * rng.choice([-1, 1]), b * sc * rng.choice([-1, 1]))
+    else:
+        v = rng.integers(-40, 41, size=n).astype(float) / 4
+    if n and rng.random() < nan:
+        for k in rng.choice(n, size=int(rng.integers(1, n + 1)) if rng.random() < 0.3 else 1, replace=False):
+            v[k] = complex(float("nan"), float(rng.choice([0.0, float("nan")]))) if cplx else float("nan")
+    return v.reshape(shape)
+
+
+def _call_max(f):
+    try:
+        with np.errstate(all="ignore"):
+            v = f()
+        return 0, float(v), float(v)
+    except ValueError as e:
+        return 1, 0.0, _exc(e)
+
+
+def u_max_area(arim, rng, res=None, area="random", family="random"):
+    tfm, g = arim.im.tfm, arim.geometry
+    if res is None:
+        cplx = rng.random() < 0.4
+        res = rand_res(rng, (int(rng.integers(0, 9)),), cplx)
+    res = np.asarray(res)
+    cplx = np.iscomplexobj(res)
+    n = len(res)
+    if isinstance(area, str):
+        r = rng.random()
+        area = None if r < 0.3 else (rng.random(n) < (0.0 if r < 0.4 else 0.5))
+    R = tfm.TfmResult(res, g.Points(np.zeros((n, 3))))
+    kind, exp, what = _call_max(lambda: R.maximum_intensity_in_area(None if area is None else np.asarray(area, dtype=bool)))
+    sel = res if area is None else res[np.asarray(area, dtype=bool)]
+    lit = (f"UMaxArea {cbool(cplx)} {clist(list(res), ccplx)} {copt(None if area is None else list(area), lambda m: clist([cbool(bool(x)) for x in m]))} "
+           f"{cZ(kind)} {cfloat(exp)} {clist(list(sel), ccplx)}")
+    return Case("UMaxArea", lit, f"UMaxArea:{family}:{'complex' if cplx else 'real'}:{'area None' if area is None else 'mask'}:"
+                + ("ValueError" if kind else "nan" if exp != exp else "value") + (":with nan" if np.any(np.isnan(res)) else ""),
+                dict(res=[[float(np.real(v)), float(np.imag(v))] for v in res], area=None if area is None else [bool(x) for x in area], arim=what),
+                "Model.TfmGlue.maximum_intensity_in_area / mask_select / nanmax vs TfmResult.maximum_intensity_in_area(area) / res[area]",
+                [f"maximum_intensity_in_area NumF isnanF (fabs_c {cbool(cplx)}) {clist(list(res), ccplx)} "
+                 f"{copt(None if area is None else list(area), lambda m: clist([cbool(bool(x)) for x in m]))}"])
+
+
+def u_max_box(arim, rng, coords=None, res=None, b=None, family="random"):
+    tfm, g = arim.im.tfm, arim.geometry
+    if coords is None:
+        coords = rand_grid_f(rng)
+        res = rand_res(rng, coords.shape[:-1], rng.random() < 0.4)
+        b = rand_box(rng, coords, p_none=0.65)
+    coords, layout = with_layout(rng, np.asarray(coords, dtype=float))
+    res = np.asarray(res)
+    if res.ndim >= 2 and rng.random() < 0.3:
+        res = np.asfortranarray(res)
+    cplx = np.iscomplexobj(res)
+    grid = g.Points(coords)
+    d = grid.ndim
+    R = tfm.TfmResult(res, grid)
+    kw = spell_box(rng, b)
+    kind, exp, what = _call_max((lambda: R.maximum_intensity_in_rectbox(**kw)) if rng.random() < 0.6 else (lambda: R.maximum_intensity_in_rectbox(*b)))
+    gt, rt = ctree(np.asarray(grid.coords), d, cfpt), ctree(res, d, ccplx)
+    lit = f"UMaxBox {cbool(cplx)} {cbox(b)} {clist(grid.shape, cZ)} ({gt}) ({rt}) {cZ(kind)} {cfloat(exp)}"
+    sn = f"(length (nats {clist(grid.shape, cZ)}))"
+    return Case("UMaxBox", lit, f"UMaxBox:{family}:ndim={d}:{'complex' if cplx else 'real'}:" + ("ValueError" if kind else "nan" if exp != exp else "value"),
+                dict(box=dict(zip(BOX_NAMES, b)), spelled=repr(kw), shape=list(grid.shape), coords=np.asarray(grid.coords).tolist(), memory_layout=layout,
+                     res=np.stack([np.real(res), np.imag(res)], axis=-1).tolist(), arim=what),
+                "Model.TfmGlue.maximum_intensity_in_rectbox_nd / maximum_intensity_in_rectbox vs TfmResult(res, grid).maximum_intensity_in_rectbox(...)",
+                [f"match to_nd {sn} ({gt}), to_nd {sn} ({rt}) with Some a, Some r => "
+                 f"maximum_intensity_in_rectbox_nd NumF isnanF (fabs_c {cbool(cplx)}) {sn} a r (box_of {cbox(b)}) | _, _ => None end"])
+
+
+# ---------------------------------------------------------------------------------------------------------------
+# pipeline cases: dyadic-exact scenes
+# ---------------------------------------------------------------------------------------------------------------
+def _issq(n):
+    r = math.isqrt(n)
+    return r * r == n
+
+
+def exact_scene(rng, nel=None):
+    """integer probe coordinates E (nel, 3) and a pool of integer points at integer distances from every element"""
+    nel = int(nel or rng.integers(1, 5))
+    fam = int(rng.integers(0, 4)) if nel <= 2 else int(rng.integers(1, 4))
+    if fam == 0:
+        E = [(0, 0, 0), (3, 0, 0)][:nel]
+        pool = [(0, 0, 4), (0, 0, 0), (8, 0, 0), (1, 0, 0), (-4, 0, 0), (0, 4, 0), (3, 0, 4), (0, -4, 0), (3, 4, 0), (3, 0, -4),
+                (0, 0, -4), (3, -4, 0), (-5, 0, 0), (12, 0, 0)]
+    elif fam == 1:
+        ax = int(rng.integers(0, 3))
+        ev = rng.choice(np.arange(-12, 13), size=nel, replace=False)
+        gv = rng.choice(np.arange(-14, 15), size=10, replace=False)
+        E = [tuple(int(v) if a == ax else 0 for a in range(3)) for v in ev]
+        pool = [tuple(int(v) if a == ax else 0 for a in range(3)) for v in gv]
+    elif fam == 2:
+        xs = rng.choice(np.array([0, 5, -5, 9, -9, 16, -16, 35, -35]), size=nel, replace=False)
+        E = [(int(x), 0, 0) for x in xs]
+        pool = [(0, 0, 12), (0, 0, -12), (0, 12, 0), (0, -12, 0)]
+        if all(abs(x) in (0, 16) for x in xs):
+            pool += [(0, 0, 30), (0, 0, 63), (0, -30, 0)]
+    else:
+        a, b, c = [(2, 3, 6), (1, 4, 8), (4, 4, 7), (2, 6, 9), (6, 6, 7), (3, 4, 12), (8, 9, 12)][int(rng.integers(0, 7))]
+        corners = list(dict.fromkeys([(a, b, 0), (-a, b, 0), (a, -b, 0), (-a, -b, 0), (b, a, 0), (-b, a, 0), (b, -a, 0), (-b, -a, 0)]))
+        E = [corners[i] for i in rng.choice(len(corners), size=min(nel, len(corners)), replace=False)]
+        pool = [(0, 0, c), (0, 0, -c)]
+    E, pool = np.array(E, dtype=np.int64), np.array(pool, dtype=np.int64)
+    d2 = ((pool[:, None, :] - E[None, :, :]) ** 2).sum(axis=2)
+    assert all(_issq(int(v)) for v in d2.ravel())
+    return E, pool, int(math.isqrt(int(d2.max())))
+
+
+def exact_time_axis(rng, dmax):
+    m, kv, q = int(rng.integers(0, 11)), int(rng.integers(-2, 13)), int(rng.integers(0, 3))
+    s, vel = 2.0 ** -m, 2.0 ** kv
+    dt = s / vel * 2.0 ** q
+    t0 = int(rng.integers(-9, 10)) * dt / 4
+    lmax = 2 * dmax * 2.0 ** -q
+    ns = int(min(40, max(1, rng.integers(int(0.5 * lmax) + 1, int(1.3 * lmax) + 4))))
+    return s, vel, dt, t0, ns
+
+
+def rand_data(rng, N, ns, cplx):
+    d = rng.integers(-8, 9, size=(N, ns)).astype(np.float64)
+    if cplx:
+        d = d + 1j * rng.integers(-8, 9, size=(N, ns))
+    return np.ascontiguousarray(d)
+
+
+AMP_VALUES = np.array([1, -1, 0.5, 2, 0.25, -0.5, 3, 0, 1, 1])
+
+
+def _real_view(arim, ttx, trx):
+    """a real arim View whose two paths carry real Rays objects with the given times"""
+    g = arim.geometry
+    nel, P = ttx.shape
+    pts_probe = g.Points(np.stack([np.arange(nel) * 1e-3, np.zeros(nel), np.zeros(nel)], axis=1), "P")
+    pts_grid = g.Points(np.stack([np.arange(P) * 1e-3, np.zeros(P), np.full(P, 5e-3)], axis=1), "G")
+    mat = arim.Material(6300.0, 3100.0)
+    i_probe = arim.Interface(*g.default_oriented_points(pts_probe))
+    i_grid = arim.Interface(*g.default_oriented_points(pts_grid))
+    paths = []
+    for name, times in (("L", ttx), ("T", trx)):
+        path = arim.Path([i_probe, i_grid], [mat], [name], name=name)
+        fp = arim.ray.FermatPath.from_path(path)
+        order = "F" if (times.flags.f_contiguous and not times.flags.c_contiguous) else "C"
+        path.rays = arim.ray.Rays(times, np.zeros((0, nel, P), dtype=np.int64, order=order), fp, order)
+        paths.append(path)
+    return arim.View(paths[0], paths[1], "L-T")
+
+
+def pipeline_case(arim, rec, *, kind, family, tx, rx, data, ns, dt, t0, scheme, fill, shape, grid=None, probe=None, vel=1.0,
+                  wmode=1, w=(), ttx=None, trx=None, amps=None, view="namespace", layout="C", spelling=None, vel_spelling=None):
+    """run the real library (unless numpy would broadcast the weights to a wrong number of rows) and write the Coq literal"""
+    tfm, g = arim.im.tfm, arim.geometry
+    N = len(tx)
+    cplx = bool(np.iscomplexobj(data))
+    contact = kind in (0, 3)
+    shape = tuple(int(v) for v in shape)
+    nel = len(probe) if contact else int(max(int(tx.max()), int(rx.max()))) + 1
+    pcoords = np.asarray(probe, dtype=float) if contact else np.stack([np.arange(nel) * 1e-3, np.zeros(nel), np.zeros(nel)], axis=1)
+    frame = arim.Frame(data, arim.Time(t0, dt, ns), tx, rx, _probe(arim, pcoords), None)
+    if contact:
+        gobj = g.Points(grid, "Grid")
+        assert gobj.shape == shape
+    else:
+        P0 = int(np.prod(shape, dtype=np.int64))
+        gobj = g.Points(np.stack([np.arange(P0) * 1e-3, np.zeros(P0), np.full(P0, 5e-3)], axis=1).reshape(shape + (3,)), "Grid")
+    # the kernels index lookup tables and amplitude tables by frame.tx / frame.rx without bound checks
+    assert int(tx.min()) >= 0 and int(rx.min()) >= 0
+    if contact:
+        assert int(tx.max()) < nel and int(rx.max()) < nel
+    else:
+        assert int(tx.max()) < ttx.shape[0] and int(rx.max()) < trx.shape[0]
+    aobj = None if amps is None else tfm.TxRxAmplitudes(np.ascontiguousarray(amps[0]), np.ascontiguousarray(amps[1]))
+    interp = INTERP[scheme] if spelling is None else spelling
+    kw = dict(fillvalue=fill, interpolation=interp)
+    if scheme == 0 and spelling is None and fill == 0.0 and family.startswith("fixed"):
+        kw = {}
+    tw = {0: "default", 1: None, 2: (w[0] if len(w) else None), 3: [float(v) for v in w], 4: [[float(v) for v in w]]}[wmode]
+    if wmode == 2 and vel_spelling == "np":
+        tw = np.float64(tw)
+    wlen = {2: 1, 3: len(w)}.get(wmode)
+    rows = N if wlen is None else broadcast_rows(N, ns, wlen)
+    drift = rows is not None and rows != N
+    res_tree, what, warn, ek = "Node []", None, -1, None
+    if drift:
+        # numpy broadcasts (N, ns) * (len(w), 1) to `rows` != N rows: the kernels would read frame.tx / frame.rx out of bounds.
+        # The library is NOT run; only the model's classification is compared.
+        assert kind == 3, "only the explicit-weights stream may produce such inputs"
+        ek, what = 2, f"not run: numpy would broadcast the weights to {rows} rows for {N} timetraces"
+    else:
+        v = vel if vel_spelling is None else (int(vel) if vel_spelling == "int" else np.float64(vel))
+        vobj = None if contact else (_real_view(arim, ttx, trx) if view == "real" else _namespace_view(ttx, trx))
+        k0 = len(rec.msgs)
+        try:
+            with np.errstate(all="ignore"):
+                if contact:
+                    r = tfm.contact_tfm(frame, gobj, v, amplitudes=aobj, timetrace_weights=tw, **kw)
+                else:
+                    r = tfm.tfm_for_view(frame, gobj, vobj, amplitudes=aobj, **kw)
+            res = np.asarray(r.res)
+            if not isinstance(r, tfm.TfmResult) or r.grid is not gobj:
+                ek, what = 9, "the result is not a TfmResult on the given grid"
+            else:
+                ek, what = 0, np.stack([np.real(res), np.imag(res)], axis=-1).tolist()
+                flat = res if kind in (0, 1) else res.reshape(-1)
+                res_tree = ctree(flat, flat.ndim, ccplx)
+        except Exception as e:  # noqa: BLE001 - whatever the library raises is the outcome "exception"
+            ek, what = 1, _exc(e)
+        warn = 1 if warned(rec, k0) else 0
+    atol = 0.0
+    if ek == 0 and N & (N - 1):
+        fin = np.abs(res[np.isfinite(res)])
+        atol = 2.0 ** -51 * (float(fin.max()) if fin.size else 0.0)
+    scans = clist([f"({cZ(t)}, {cZ(r_)}, {clist(list(x), ccplx)})" for t, r_, x in zip(tx.tolist(), rx.tolist(), data)])
+    gt = ctree(np.asarray(gobj.coords), len(shape), cfpt) if contact else "Node []"
+    amp_lit = ("true " + ctab(amps[0], ccplx) + " " + ctab(amps[1], ccplx)) if amps is not None else "false [] []"
+    lit = ("mkP {k} {cplx} {sch} {ns} {dt} {t0} {fill} {shape} ({grid}) {probe} {vel} {wmode} {w} {ttx} {trx} {mtx} {mrx} {amp} {scans} "
+           "{ek} ({exp}) {atol} {warn}").format(
+        k=cZ(kind), cplx=cbool(cplx), sch=cZ(scheme), ns=cZ(ns), dt=cfloat(dt), t0=cfloat(t0), fill=cpair(cfloat(fill), cfloat(0.0)),
+        shape=clist(shape, cZ), grid=gt, probe=clist([cfpt(p) for p in pcoords]) if contact else "[]", vel=cfloat(vel),
+        wmode=cZ(wmode), w=clist([float(v) for v in w], cfloat),
+        ttx=ctab(ttx.tolist(), cfloat) if kind == 1 else "[]", trx=ctab(trx.tolist(), cfloat) if kind == 1 else "[]",
+        mtx=carr(ttx, cfloat) if kind == 2 else EMPTY_ARR, mrx=carr(trx, cfloat) if kind == 2 else EMPTY_ARR,
+        amp=amp_lit, scans=scans, ek=cZ(ek), exp=res_tree, atol=cfloat(atol), warn=cZ(warn))
+    info = dict(function=P_KIND[kind], family=family, grid_shape=list(shape), tx=tx.tolist(), rx=rx.tolist(), index_dtype=str(tx.dtype),
+                timetraces=np.stack([np.real(data), np.imag(data)], axis=-1).tolist() if cplx else np.asarray(data).tolist(),
+                time=dict(start=float(t0).hex(), step=float(dt).hex(), num=ns), interpolation=repr(interp), fillvalue=fill,
+                amplitudes=None if amps is None else [np.asarray(amps[0]).tolist(), np.asarray(amps[1]).tolist()],
+                arim=dict(outcome={0: "TfmResult", 1: "exception", 2: "shape drift (not run)"}.get(ek, "other"), res_or_error=what, warned=warn),
+                tolerance=atol)
+    if contact:
+        info.update(grid=np.asarray(gobj.coords).tolist(), grid_memory_layout=layout, probe=pcoords.tolist(), velocity=float(vel).hex(),
+                    velocity_spelling=vel_spelling or "float", timetrace_weights=repr(tw))
+    else:
+        info.update(times_tx=ttx.tolist(), times_rx=trx.tolist(),
+                    order_tx="F" if (ttx.flags.f_contiguous and not ttx.flags.c_contiguous) else "C",
+                    order_rx="F" if (trx.flags.f_contiguous and not trx.flags.c_contiguous) else "C", view_object=view)
+    out = {0: "ok", 1: "raises", 2: "drift"}.get(ek, "other")
+    c = Case("P", lit, f"{P_KIND[kind]}:{family}:{out}", info, P_CORR[kind])
+    c.exprs = ["p_checks c0", "p_model c0", "p_model_warns c0"]
+    return c
+
+
+# ---------------------------------------------------------------------------------------------------------------
+# pipeline generators
+# ---------------------------------------------------------------------------------------------------------------
+def _scheme_fill(rng):
+    scheme = int(rng.integers(0, 2))
+    fill = [0.0, 0.0, float("nan"), -7.0][int(rng.integers(0, 4))]
+    spelling = None
+    if rng.random() < 0.15:
+        spelling = ["Nearest", "LINEAR"][scheme] if rng.random() < 0.5 else ["NEAREST", "Linear"][scheme]
+    return scheme, fill, spelling
+
+
+def _vel_spelling(rng, vel):
+    r = rng.random()
+    if r < 0.2 and float(vel).is_integer():
+        return "int"
+    return "np" if r < 0.35 else None
+
+
+def _amps(rng, P, ntx, nrx):
+    return (np.ascontiguousarray(rng.choice(AMP_VALUES, size=(P, ntx))), np.ascontiguousarray(rng.choice(AMP_VALUES, size=(P, nrx))))
+
+
+def _bad_amps(rng, amps):
+    """amplitude tables of a wrong shape (FocalLaw asserts before any kernel runs)"""
+    atx, arx = amps
+    P, n = atx.shape
+    which = int(rng.integers(0, 4))
+    if which == 0:
+        atx = np.ascontiguousarray(np.vstack([atx, atx[:1]]))
+    elif which == 1:
+        arx = np.ascontiguousarray(arx[:-1]) if P > 1 else np.ascontiguousarray(np.vstack([arx, arx]))
+    elif which == 2:
+        atx = np.ascontiguousarray(np.hstack([atx, atx[:, :1]]))
+    else:
+        arx = np.ascontiguousarray(np.hstack([arx, arx[:, :1]]))
+    return atx, arx
+
+
+def gen_contact_nd(arim, rec, rng, error=None):
+    nel = int(rng.integers(1, 5))
+    E, pool, dmax = exact_scene(rng, nel)
+    nel = len(E)
+    s, vel, dt, t0, ns = exact_time_axis(rng, dmax)
+    P = 0 if (error is None and rng.random() < 0.05) else int(rng.integers(1, 10))
+    shape = shape_with(rng, P)
+    G = pool[rng.integers(0, len(pool), size=P)].reshape(shape + (3,)) * s
+    G, layout = with_layout(rng, G.astype(float))
+    tx, rx, mode = gen_pairs(rng, nel, pow2=rng.random() < 0.6)
+    N = len(tx)
+    cplx = error is None and rng.random() < 0.12
+    data = rand_data(rng, N, ns, cplx)
+    scheme, fill, spelling = _scheme_fill(rng)
+    wmode = int(rng.choice([0, 0, 1, 3]))
+    w = [float(v) for v in rng.choice([1, 2, 0.5, 3, 0.25], size=N)] if wmode == 3 else []
+    amps = _amps(rng, P, nel, nel) if (P and not cplx and rng.random() < 0.3) else None
+    fam = f"ndim={len(shape)}:{mode.split(':')[0]}:{'amp' if amps else 'noamp'}:{['nearest', 'linear'][scheme]}:w={['default', 'None', '', 'list'][wmode]}"
+    if P == 0:
+        fam += ":empty grid"
+    if error == "amps":
+        amps = _bad_amps(rng, _amps(rng, P, nel, nel))
+        fam = "error:amplitudes of a wrong shape"
+    elif error == "weights":
+        if N == 1:      # a one-timetrace frame with a wrong number of weights is the shape-drift input: never given to the library here
+            wmode, w, error = 3, [2.0], None
+            fam = "one timetrace, one weight"
+        else:
+            L = int(rng.choice([k for k in (0, 2, 3, N - 1, N + 1, 2 * N) if k not in (1, N)]))
+            wmode, w = 3, [float(v) for v in rng.choice([1, 2, 0.5], size=L)]
+            fam = "error:weights of a wrong length"
+    elif error == "lanczos+amps":
+        amps, scheme, spelling = _amps(rng, P, nel, nel), 2, None
+        fam = "error:lanczos with amplitudes"
+    return pipeline_case(arim, rec, kind=0, family=fam, tx=tx, rx=rx, data=data, ns=ns, dt=dt, t0=t0, scheme=scheme, fill=fill,
+                         shape=shape, grid=G, probe=E * s, vel=vel, wmode=wmode, w=w, amps=amps, layout=layout, spelling=spelling,
+                         vel_spelling=_vel_spelling(rng, vel))
+
+
+def _ray_times(rng, nel, P, ns, dt, m):
+    a = rng.integers(-3, 2 * ns + 4, size=(nel, P))
+    t = (a + m) * (dt / 4)
+    t = np.ascontiguousarray(t.astype(float))
+    return np.asfortranarray(t) if rng.random() < 0.5 else t
+
+
+def gen_view(arim, rec, rng, kind, error=None):
+    """tfm_for_view on hand-made ray times sitting on quarter samples; kind 1: N-d grid, kind 2: memory order"""
+    P = int(rng.integers(1, 9))
+    dt = 2.0 ** -int(rng.choice([0, 1, 3, 6, 20]))
+    m = int(rng.integers(-9, 10))
+    t0 = m * dt / 4
+    ns = int(rng.integers(1, 13))
+    real_view = error is None and rng.random() < 0.5
+    ntx = int(rng.integers(1, 5))
+    nrx = ntx if (real_view or rng.random() < 0.7) else int(rng.integers(1, 5))
+    ttx, trx = _ray_times(rng, ntx, P, ns, dt, 0), _ray_times(rng, nrx, P, ns, dt, m)
+    tx, rx, mode = gen_pairs(rng, ntx, nrx, pow2=rng.random() < 0.6)
+    N = len(tx)
+    cplx = error is None and rng.random() < 0.12
+    data = rand_data(rng, N, ns, cplx)
+    scheme, fill, spelling = _scheme_fill(rng)
+    amps = _amps(rng, P, ntx, nrx) if (not cplx and rng.random() < 0.3) else None
+    shape = shape_with(rng, P) if kind == 1 else (P,)
+    order = lambda a: "F" if (a.flags.f_contiguous and not a.flags.c_contiguous) else "C"    # noqa: E731
+    fam = (f"ndim={len(shape)}:" if kind == 1 else "") + f"{order(ttx)}{order(trx)}:{mode.split(':')[0]}:{'amp' if amps else 'noamp'}:" \
+        f"{['nearest', 'linear'][scheme]}:{'View+Rays' if real_view else 'namespace'}" + ("" if ntx == nrx else ":numtx!=numrx")
+    if error == "grid":         # more grid points than columns of the ray times: res.reshape(grid.shape) raises ValueError
+        shape = shape_with(rng, P + int(rng.integers(1, 4)))
+        fam = "error:grid larger than the ray times"
+    elif error == "columns":    # the two ray-time tables have different numbers of columns: FocalLaw asserts
+        P2 = P - 1 if (P > 1 and rng.random() < 0.5) else P + 1
+        if rng.random() < 0.5:
+            trx = _ray_times(rng, nrx, P2, ns, dt, m)
+        else:
+            ttx = _ray_times(rng, ntx, P2, ns, dt, 0)
+        P = max(P, P2)
+        shape = shape_with(rng, P) if kind == 1 else (P,)
+        amps = None
+        fam = "error:ray times of different widths"
+    elif error == "amps":
+        amps = _bad_amps(rng, _amps(rng, P, ntx, nrx))
+        fam = "error:amplitudes of a wrong shape"
+    elif error == "lanczos+amps":
+        amps, scheme, spelling = _amps(rng, P, ntx, nrx), 2, None
+        fam = "error:lanczos with amplitudes"
+    return pipeline_case(arim, rec, kind=kind, family=fam, tx=tx, rx=rx, data=data, ns=ns, dt=dt, t0=t0, scheme=scheme, fill=fill,
+                         shape=shape, ttx=ttx, trx=trx, amps=amps, view="real" if real_view else "namespace", spelling=spelling)
+
+
+def gen_x(arim, rec, rng, wkind):
+    """contact_tfm with every spelling of timetrace_weights, on frames of 1 .. 16 timetraces (1-d grid)"""
+    nel = int(rng.integers(1, 4))
+    E, pool, dmax = exact_scene(rng, nel)
+    nel = len(E)
+    s, vel, dt, t0, ns = exact_time_axis(rng, dmax)
+    P = int(rng.integers(1, 5))
+    G = (pool[rng.integers(0, len(pool), size=P)] * s).astype(float)
+    tx, rx, mode = gen_pairs(rng, nel, pow2=rng.random() < 0.6)
+    if wkind in ("drift", "one") or rng.random() < 0.25:
+        k = int(rng.integers(0, len(tx)))
+        tx, rx, mode = tx[k:k + 1].copy(), rx[k:k + 1].copy(), "one timetrace"
+    N = len(tx)
+    data = rand_data(rng, N, ns, False)
+    scheme, fill, spelling = _scheme_fill(rng)
+    vals = [1.0, 2.0, 0.5, 3.0, 0.25]
+    if wkind == "default":
+        wmode, w = 0, []
+    elif wkind == "none":
+        wmode, w = 1, []
+    elif wkind == "scalar":
+        wmode, w = 2, [float(rng.choice(vals))]
+    elif wkind in ("full", "one"):
+        wmode, w = 3, [float(v) for v in rng.choice(vals, size=N if wkind == "full" else 1)]
+    elif wkind == "wrong":      # N >= 2: ValueError;  N == 1: shape drift (not run)
+        L = int(rng.choice([k for k in (0, 2, 3, 4, N - 1, N + 1, 2 * N) if k not in (1, N) and k >= 0]))
+        wmode, w = 3, [float(v) for v in rng.choice(vals, size=L)]
+    elif wkind == "drift":
+        L = int(rng.choice([0, 2, 3, 4, 7]))
+        wmode, w = 3, [float(v) for v in rng.choice(vals, size=L)]
+    else:                       # ndim 2
+        wmode, w = 4, [float(v) for v in rng.choice(vals, size=N)]
+    fam = f"w={wkind}:{'one timetrace' if N == 1 else 'N>=2'}:{['nearest', 'linear'][scheme]}"
+    return pipeline_case(arim, rec, kind=3, family=fam, tx=tx, rx=rx, data=data, ns=ns, dt=dt, t0=t0, scheme=scheme, fill=fill,
+                         shape=(P,), grid=G, probe=E * s, vel=vel, wmode=wmode, w=w, spelling=spelling,
+                         vel_spelling="np" if rng.random() < 0.3 else None)
